@@ -10,29 +10,41 @@ from __future__ import annotations
 
 import itertools
 
-from mc import core, hist, obs as O
+from mc import core, hist, pristine, obs as O
 
 PID = "C12"
 
 # ---------------------------------------------------------------------------
 # (1) one CParser, operations parse(p_i, f_j)
 # ---------------------------------------------------------------------------
-# one program per way of leaving state behind
+# one program per way of leaving state behind, plus pairs of programs that
+# collide on what a (module-, class- or instance-level) cache could be keyed
+# on while their expected results differ: the same directive text ('#line 7',
+# '# 40', '#pragma keep this pending') under different file names / after a
+# named marker / on another line; the same source line 'f(void){ T * x; }' at
+# the same (line, column) with T a typedef or not; the same literal spellings
+# and suffix tails at other positions; the same identifier as type and object
 PROGRAMS = [
-    ("declares-typedef", "typedef int T; T a;"),
+    ("declares-typedef", "typedef int T;\nf(void){ T * x; }"),
     ("declares-variable-of-same-name", "int T; int y = T * 2;"),
-    ("probes-name-implicit-int", "f(void){ T * x; }"),
+    ("probes-name-implicit-int", "int q;\nf(void){ T * x; }"),
     ("fails-in-two-nested-scopes-after-typedef", "typedef int T; void f(void){ { T x; x y; } }"),
     ("fails-in-lexer", "typedef char T; int a = 1 @ 2;"),
-    ("changes-file-and-line", 'int before;\n#line 100 "inc.h"\ntypedef int U;\nU v;'),
+    ("changes-file-and-line", 'int before;\n#line 100 "inc.h"\ntypedef int U;\n#line 7\nU v;'),
     ("fails-with-pragma-string-pending", "int a\n#pragma keep this pending\n"),
+    ("same-pragma-on-another-line", "#pragma keep this pending\nint a;"),
     ("fails-at-eof-inside-struct", "typedef int T; struct S { T a;"),
     ("empty", ""),
     ("k-and-r-definition", "int f(a, T) int a; int T; { return T * a; }"),
     ("result-depends-on-filename", "int a = ;"),
     ("fails-in-scope-shadowing-a-typedef", "typedef int T; int g(void){ int T; { T x; } }"),
+    ("bare-line-directive", "int before;\n#line 7\nint after;"),
+    ("bare-linemarker-and-line-directive", "int u;\n# 40\nint v;\n#line 7\nint w;"),
+    ("literals", "unsigned a = 10u; long b = 0x10u; char c = 'u'; float d = 1.0f; char *s = \"u\";"),
+    ("same-literals-and-tails-elsewhere", "long b =\n 10u + 010u; unsigned long c = 10ul; double e = 10.0f + 0x1.0p1f;\nchar *s = \"u\" \"u\"; int w = L'u';"),
 ]
 FILENAMES = ["a.c", "dir/b.h"]
+CONTROL_PROGRAMS = ("declares-typedef", "result-depends-on-filename")
 
 
 class ParserSpec:
@@ -49,8 +61,7 @@ class ParserSpec:
         self.ops = [{"what": w, "text": t, "filename": f}
                     for (w, t) in PROGRAMS for f in FILENAMES]
         if variant != "real":
-            self.ops = [o for o in self.ops if o["what"] in
-                        ("declares-typedef", "result-depends-on-filename")]
+            self.ops = [o for o in self.ops if o["what"] in CONTROL_PROGRAMS]
 
         class StickyLexer(CLexer):
             _first = None
@@ -66,6 +77,7 @@ class ParserSpec:
         return self._mk()
 
     def apply(self, obj, i):
+        pristine.touch("CParser.parse")
         op = self.ops[i]
         return O.parse_obs(obj, op["text"], op["filename"])
 
@@ -106,6 +118,10 @@ LEX_TEXTS = [
     ("bare-and-double-pragma", "#pragma\n#pragma z\n# 7 \"q.c\" 1 3\nfoo", "g.c"),
     ("bad-line-directive-then-tokens", '#line "f.h"\nu\n#line 9\nv', "d.c"),
     ("empty", "", ""),
+    # the same bare directive texts with different file names in force, the
+    # same pragma text as in the first entry on another line
+    ("bare-line-directives", "a\n#line 7\nb\n# 40\nc T", "bl.c"),
+    ("bare-line-directive-after-named-marker", '# 3 "nm.h"\nx\n#line 7\ny\n#pragma pack ( 1 )\nz', "nm.c"),
 ]
 
 
@@ -115,6 +131,7 @@ class LexHarness:
     def __init__(self):
         from pycparser.c_lexer import CLexer
 
+        pristine.touch("CLexer")
         self.log = []
         self.lex = CLexer(
             error_func=lambda msg, line, col: self.log.append(("error", msg, line, col)),
@@ -153,13 +170,22 @@ class LexHarness:
         return ("drain", tuple(toks), tuple(self.log), after)
 
 
-def _lex_expected():
-    exp = []
-    for i in range(len(LEX_TEXTS)):
-        h = LexHarness()
-        h.input(i)
-        exp.append(h.drain())
-    return exp
+def _lex_baseline_work(i):
+    h = LexHarness()
+    h.input(i)
+    return h.drain()
+
+
+def lex_baseline(only=None):
+    """Drain of every text by a fresh lexer, each in its own pristine child."""
+    idx = list(range(len(LEX_TEXTS))) if only is None else sorted(set(only))
+    res = pristine.pristine_map(_lex_baseline_work, idx)
+    exp, unstable = {}, []
+    for i, (a, b) in zip(idx, res):
+        exp[i] = a
+        if a != b:
+            unstable.append((i, a, b))
+    return exp, unstable
 
 
 def _lex_sig(e, g):
@@ -185,9 +211,8 @@ def _lex_sig(e, g):
 def _lex_work(task):
     """All chains input(t_i0), k0 x token(), input(t_i1), k1 x token(), ...,
     input(t_j), drain - for one first text."""
-    first, chain = task
-    exp = _lex_expected()
-    npulls = [len(e[1]) + 1 for e in exp]  # token() calls until None, +1 beyond
+    first, chain, exp = task
+    npulls = [len(exp[i][1]) + 1 for i in range(len(LEX_TEXTS))]  # token() calls until None, +1 beyond
     histories = applied = 0
     states = set()
     fails = []
@@ -261,18 +286,14 @@ class GenSpec:
         from pycparser.c_parser import CParser
         from pycparser.c_generator import CGenerator
 
+        pristine.touch("CParser.parse (inputs of the generator)")
         self.name = "CGenerator"
         self.rp = bool(reduce_parentheses)
         self._G = CGenerator
         roots = {k: CParser().parse(v, k + ".c") for k, v in GEN_SOURCES.items()}
-        self.ops, self.nodes, self.dropped = [], [], []
+        self.ops, self.nodes = [], []
         for what, src, path in GEN_ASTS:
             node = _resolve(roots[src], path)
-            # the property speaks of *successful* visits: an AST that a fresh
-            # generator cannot print is not an operation
-            if O.visit_obs(CGenerator(reduce_parentheses=self.rp), node)[0] != "text":
-                self.dropped.append(what)
-                continue
             self.ops.append({"what": what, "source": GEN_SOURCES[src], "path": path,
                              "node": type(node).__name__, "reduce_parentheses": self.rp})
             self.nodes.append(node)
@@ -281,6 +302,7 @@ class GenSpec:
         return self._G(reduce_parentheses=self.rp)
 
     def apply(self, obj, i):
+        pristine.touch("CGenerator.visit")
         return O.visit_obs(obj, self.nodes[i]), None
 
     def invariants(self, obj, h, obs, keep):
@@ -294,20 +316,74 @@ def gen_spec(rp=0):
 
 
 # ---------------------------------------------------------------------------
+def parser_ops(variant="real"):
+    ops = [{"what": w, "text": t, "filename": f} for (w, t) in PROGRAMS for f in FILENAMES]
+    if variant != "real":
+        ops = [o for o in ops if o["what"] in CONTROL_PROGRAMS]
+    return ops
+
+
+def _left_behind_work(i):
+    """Evidence only: what one parse leaves in the object (tolerant of renamed
+    private attributes)."""
+    spec = ParserSpec("real")
+    p = spec.fresh()
+    spec.apply(p, i)
+    cl = getattr(p, "clex", None)
+    ts = getattr(p, "_tokens", None)
+    return {
+        "open_scopes": len(getattr(p, "_scope_stack", [None])) - 1,
+        "names_left": sorted(k for s in getattr(p, "_scope_stack", []) for k in s),
+        "pending_token": getattr(cl, "_pending_tok", None) is not None,
+        "lexer_filename": getattr(cl, "filename", None),
+        "unread_buffered_tokens": (len(getattr(ts, "_buffer", [])) - getattr(ts, "_index", 0)) if ts is not None else None,
+    }
+
+
+PREF = ("checks.c12", "parser_spec", ("real",))
+CREF = ("checks.c12", "parser_spec", ("control",))
+GREF = {rp: ("checks.c12", "gen_spec", (rp,)) for rp in (0, 1)}
+
+
 def run(tier):
     R = core.Run(PID, tier, "model_checking")
     quick = tier == "quick"
-    core.pool()
     samples = []
     states = set()
     transitions = traces = 0
+
+    # (B) every reference observation ("brand-new instance") is taken in its
+    # own pristine process (mc/pristine.py), forked from a reserve that is
+    # itself forked here, before this process, its pmap workers or anything
+    # else has executed pycparser code; twice, in two separate processes
+    pristine.start_reserve()
+    core.pool()
+    pops = parser_ops("real")
+    NP = len(pops)
+    base = {}
+    unstable = []
+    for ref, n in [(PREF, NP), (CREF, len(parser_ops("control"))),
+                   (GREF[0], len(GEN_ASTS)), (GREF[1], len(GEN_ASTS))]:
+        base[ref], u = hist.baseline(ref, n)
+        unstable += [(ref, i, a, b) for i, a, b in u]
+    lex_exp, lex_unstable = lex_baseline()
+    R.set("baselines_from_pristine_processes",
+          sum(len(t) for t in base.values()) + len(lex_exp))
+    for ref, i, a, b in unstable:
+        nm = "CGenerator" if ref[1] == "gen_spec" else "CParser"
+        R.fail(f"{nm}:fresh-instance-unstable:{O.obs_sig(a, b)}",
+               {"spec": list(ref), "history": [i], "unstable": True},
+               f"two pristine processes disagree on a brand-new instance: {O.obs_detail(a, b)}")
+    for i, a, b in lex_unstable:
+        R.fail("CLexer:fresh-instance-unstable", {"part": "lexer", "dirty": [], "dirty_idx": [], "then": i},
+               "two pristine processes disagree on a fresh lexer's drain")
 
     if not hist.selfcheck():
         R.fail("harness:history-explorer-selfcheck", {"part": "selfcheck"},
                "the explorer did not find the planted history dependence of the toy object / was not silent on the clean toy / replay not deterministic")
 
     # (0) positive control on the real parser through public seams only
-    ctl = hist.explore(("checks.c12", "parser_spec", ("control",)), 2, plen=1)
+    ctl = hist.explore(CREF, 2, base[CREF], plen=1)
     ctl_sigs = sorted({f[0] for f in ctl["fails"]})
     R.set("control_planted_dependence_signatures", ctl_sigs)
     if not any("coord.file" in s or "message" in s for s in ctl_sigs):
@@ -316,8 +392,7 @@ def run(tier):
 
     # (1) CParser
     depth = 3 if quick else 4
-    ref = ("checks.c12", "parser_spec", ("real",))
-    r = hist.explore(ref, depth, plen=2)
+    r = hist.explore(PREF, depth, base[PREF], plen=2)
     R.fail_many(r["fails"])
     states |= {"P" + s for s in r["states"]}
     transitions += r["applied"]
@@ -331,53 +406,41 @@ def run(tier):
     # evidence only (not a verdict): is the end state a function of the last op?
     R.set("parser_end_state_determined_by_last_op",
           all(len(v) == 1 for v in r["last_state"].values()))
-    spec = hist.get_spec(ref)
-    # how dirty were the states that parse() started from (evidence, tolerant
-    # of renamed private attributes)
-    dirty = {}
-    for i, op in enumerate(spec.ops):
-        if op["filename"] != FILENAMES[0]:
-            continue
-        p = spec.fresh()
-        spec.apply(p, i)
-        cl = getattr(p, "clex", None)
-        ts = getattr(p, "_tokens", None)
-        dirty[op["what"]] = {
-            "open_scopes": len(getattr(p, "_scope_stack", [None])) - 1,
-            "names_left": sorted(k for s in getattr(p, "_scope_stack", []) for k in s),
-            "pending_token": getattr(cl, "_pending_tok", None) is not None,
-            "lexer_filename": getattr(cl, "filename", None),
-            "unread_buffered_tokens": (len(getattr(ts, "_buffer", [])) - getattr(ts, "_index", 0)) if ts is not None else None,
-        }
-    R.set("parser_state_left_behind_per_program", dirty)
-    if r["histories"] < sum(len(spec.ops) ** l for l in range(1, depth + 1)):
+    idx = [i for i, op in enumerate(pops) if op["filename"] == FILENAMES[0]]
+    left = pristine.pristine_map(_left_behind_work, idx, repeat=1)
+    R.set("parser_state_left_behind_per_program", {pops[i]["what"]: l[0] for i, l in zip(idx, left)})
+    if r["histories"] < sum(NP ** l for l in range(1, depth + 1)):
         R.fail("harness:parser-histories-missing", {"part": "parser"}, str(r["histories"]))
-    if r["expected_distinct"] < len(spec.ops) - 2 or len(r["states"]) < 8 or len(r["outcome_kinds"]) < 2:
+    # distinct expected results: every (program, file name) except the empty text
+    if r["expected_distinct"] < NP - 1 or len(r["states"]) < 8 or len(r["outcome_kinds"]) < 2:
         R.fail("harness:parser-part-vacuous", {"part": "parser"},
                f"distinct expected={r['expected_distinct']} states={len(r['states'])}")
-    samples += [[spec.ops[i]["what"] + "@" + spec.ops[i]["filename"] for i in h]
-                for h in ((0, 4, 1), (7, 2), (12, 13, 12), (6, 0), (21, 5, 4))]
+    samples += [[pops[i]["what"] + "@" + pops[i]["filename"] for i in h]
+                for h in ((0, 4, 1), (7, 2), (12, 13, 12), (6, 0), (27, 26), (21, 5, 4))]
 
     # (2) CLexer
     chain = 2 if quick else 3
-    lres = core.pmap(_lex_work, [(i, chain) for i in range(len(LEX_TEXTS))], chunksize=1)
+    nt = len(LEX_TEXTS)
+    lres = core.pmap(_lex_work, [(i, chain, lex_exp) for i in range(nt)], chunksize=1)
     lex_hist = lex_applied = 0
     lex_states = set()
     dirty_kinds = set()
+    lex_fails = []
     for hcount, ap, st, fl, dk in lres:
         lex_hist += hcount
         lex_applied += ap
         lex_states |= st
         dirty_kinds |= dk
-        R.fail_many(fl)
+        lex_fails += fl
+    lex_fails.sort(key=lambda f: (len(f[1]["dirty_idx"]), f[1]["dirty_idx"], f[1]["then"]))
+    R.fail_many(lex_confirm(lex_exp, lex_fails))
     states |= {"L" + s for s in lex_states}
     transitions += lex_applied
     traces += lex_hist
     R.set("lexer_histories", lex_hist)
     R.set("lexer_distinct_states", len(lex_states))
     R.set("lexer_dirty_kinds(pending,filename-changed,after-error)", sorted(map(list, dirty_kinds)))
-    exp = _lex_expected()
-    if lex_hist < len(LEX_TEXTS) ** 2 * 3 or len({O.digest(e) for e in exp}) < len(LEX_TEXTS) \
+    if lex_hist < nt ** 2 * 3 or len({O.digest(lex_exp[i]) for i in range(nt)}) < nt \
             or not any(k[0] for k in dirty_kinds) or not any(k[1] for k in dirty_kinds) \
             or not any(k[2] for k in dirty_kinds):
         R.fail("harness:lexer-part-vacuous", {"part": "lexer"},
@@ -388,42 +451,42 @@ def run(tier):
     gdepth = 3 if quick else 4
     gen_hist = 0
     gen_states = set()
+    ng = len(GEN_ASTS)
     for rp in (0, 1):
-        gref = ("checks.c12", "gen_spec", (rp,))
-        g = hist.explore(gref, gdepth, plen=2)
+        g = hist.explore(GREF[rp], gdepth, base[GREF[rp]], plen=2)
         R.fail_many(g["fails"])
         gen_hist += g["histories"]
         transitions += g["applied"]
         traces += g["histories"]
         gen_states |= g["states"]
-        gs = hist.get_spec(gref)
-        if gs.dropped:
-            R.notes.append(f"generator ASTs dropped (fresh visit fails, rp={rp}): {gs.dropped}")
-        if len(gs.ops) < 8 or g["expected_distinct"] < len(gs.ops) or g["outcome_kinds"].get("text", 0) != g["histories"]:
+        if ng < 8 or g["expected_distinct"] < ng or g["outcome_kinds"].get("text", 0) != g["histories"] \
+                or any(base[GREF[rp]][i][0] != "text" for i in range(ng)):
             R.fail("harness:generator-part-vacuous", {"part": "generator"},
-                   f"ops={len(gs.ops)} distinct texts={g['expected_distinct']} kinds={g['outcome_kinds']}")
-        R.set(f"generator_operations_rp{rp}", len(gs.ops))
+                   f"ops={ng} distinct texts={g['expected_distinct']} kinds={g['outcome_kinds']}")
     states |= {"G" + s for s in gen_states}
+    R.set("generator_operations", ng)
     R.set("generator_histories", gen_hist)
     R.set("generator_distinct_states", len(gen_states))
     samples.append({"generator": [GEN_ASTS[7][0], GEN_ASTS[0][0], GEN_ASTS[4][0]]})
+    pristine.stop_reserve()
 
     R.set("states", len(states))
     R.set("transitions", transitions)
     R.set("traces_validated_against_impl", traces)
     R.set("evaluations", traces + ctl["histories"])
     # non-trivial = histories of length >= 2 (the compared call really ran on a used object)
-    nontriv = (r["histories"] - r["nops"]) + lex_hist + (gen_hist - sum(
-        len(hist.get_spec(("checks.c12", "gen_spec", (rp,))).ops) for rp in (0, 1)))
+    nontriv = (r["histories"] - NP) + lex_hist + (gen_hist - 2 * ng)
     R.set("distinct_nontrivial", nontriv)
     R.set("distinct_outcomes", r["expected_distinct"])
-    R.set("bounds", {"parser_sequences<=": depth, "parser_ops": r["nops"],
-                     "lexer_chain_inputs": chain, "lexer_texts": len(LEX_TEXTS),
-                     "generator_sequences<=": gdepth, "generator_asts": len(GEN_ASTS),
+    R.set("bounds", {"parser_sequences<=": depth, "parser_ops": NP,
+                     "lexer_chain_inputs": chain, "lexer_texts": nt,
+                     "generator_sequences<=": gdepth, "generator_asts": ng,
                      "generator_variants": ["reduce_parentheses=False", "reduce_parentheses=True"]})
     R.assumptions += [
-        "histories consist of the listed operations only (12 programs x 2 file names; 8 lexer texts; 12 ASTs)",
+        f"histories consist of the listed operations only ({len(PROGRAMS)} programs x {len(FILENAMES)} file names; {nt} lexer texts; {ng} ASTs)",
         "generator histories contain successful visits only, as the property states",
+        "reference observations come from pristine processes (one per observation); the processes that run "
+        "the histories run many of them, so module-level state is part of what is compared",
     ]
     return R.finish(
         samples,
@@ -431,41 +494,91 @@ def run(tier):
         "input(t_j)/drain chain on one CLexer, every sequence <= depth of visit(ast_i) on one CGenerator; "
         "each history is replayed from scratch on a fresh real object and the n-th observation "
         "(canon AST with coords / exception type+message / token stream+callback log / text) is compared "
-        "with a brand-new instance's; node-identity sets of ASTs of different calls must be disjoint; "
-        "indent_level must be 0 after each visit. states = distinct deep canonical object states "
-        "(obj.__dict__ incl. lexer and token stream) reached, transitions = operations applied, "
+        "with a brand-new instance's in a pristine process; node-identity sets of ASTs of different calls "
+        "must be disjoint; indent_level must be 0 after each visit. states = distinct deep canonical object "
+        "states (obj.__dict__ incl. lexer and token stream) reached, transitions = operations applied, "
         "traces = histories executed. non-trivial = histories in which the compared call ran on an "
         "already used object (length >= 2)",
     )
 
 
+def _lex_replay(dirty_idx, then, prelude=()):
+    for i in prelude:
+        h0 = LexHarness()
+        h0.input(i)
+        h0.drain()
+    h = LexHarness()
+    for i, k in dirty_idx:
+        h.input(i)
+        for _ in range(k):
+            h.pull()
+    h.input(then)
+    return h.drain()
+
+
+def _lex_confirm_work(task):
+    exp, dirty_idx, then, prelude = task
+    return _lex_replay(dirty_idx, then, prelude) != exp
+
+
+def lex_confirm(lex_exp, fails):
+    """Self-contained reproduction of the smallest case per signature in a
+    pristine process (see hist.confirm)."""
+    seen, out = set(), []
+    for sig, case, detail in fails:
+        if sig not in seen:
+            seen.add(sig)
+            cands = [[]] + [[k] for k in range(len(LEX_TEXTS))]
+            res = pristine.pristine_map(
+                _lex_confirm_work,
+                [(lex_exp[case["then"]], case["dirty_idx"], case["then"], pre) for pre in cands], repeat=1)
+            case = dict(case, self_contained=False)
+            for pre, (bad,) in zip(cands, res):
+                if bad:
+                    case.update(prelude=pre, self_contained=True)
+                    if pre:
+                        detail += f" [needs process state: reproduced in a pristine process after ANOTHER fresh lexer drained text {pre}]"
+                    break
+        out.append((sig, case, detail))
+    return out
+
+
 def replay(rep):
+    pristine.start_reserve()
     c = rep["case"]
     part = c.get("part")
     if part == "lexer":
-        exp = _lex_expected()
-        h = LexHarness()
-        for i, k in c["dirty_idx"]:
-            h.input(i)
-            for _ in range(k):
-                h.pull()
-        h.input(c["then"])
-        got = h.drain()
+        exp, _ = lex_baseline([c["then"]])
+        got = _lex_replay(c["dirty_idx"], c["then"], c.get("prelude", ()))
+        if c.get("prelude"):
+            print("first, on another fresh lexer: drain of", [LEX_TEXTS[i][0] for i in c["prelude"]])
         print("history:", c["dirty"], "then input", LEX_TEXTS[c["then"]][0])
-        print("expected:", exp[c["then"]])
+        print("expected (fresh lexer in a pristine process):", exp[c["then"]])
         print("observed:", got)
         return 0 if got == exp[c["then"]] else 1
     if part in ("selfcheck", "control", "parser", "generator"):
         print("harness-level failure; re-run the check")
         return 1
-    spec = hist.get_spec(tuple(c["spec"][:2]) + (tuple(c["spec"][2]),))
+    ref = (c["spec"][0], c["spec"][1], tuple(c["spec"][2]))
     h = tuple(c["history"])
+    pre = tuple(c.get("prelude", ()))
+    table, unstable = hist.baseline(ref, None, only=set(h) | set(pre))
+    spec = hist.install_baseline(ref, table)
+    if c.get("unstable"):
+        for i, a, b in unstable:
+            print(f"operation {spec.ops[i]}: two pristine processes disagree: {O.obs_detail(a, b)}")
+        return 1 if unstable else 0
+    for k in pre:
+        print(f"first, on ANOTHER fresh instance: {spec.ops[k]}")
+        spec.apply(spec.fresh(), k)
     obj, obs, keep, viol = hist.build(spec, h)
     for n, i in enumerate(h):
         e = hist.expected(spec, i)
         print(f"call {n}: {spec.ops[i]}")
-        print("   fresh instance:", "FileAST" if e[0] == "ok" else e)
+        print("   fresh instance (pristine process):", "FileAST" if e[0] == "ok" else e)
         print("   this instance :", ("FileAST" + ("" if obs[n] == e else " (differs: " + O.obs_detail(e, obs[n]) + ")")) if obs[n][0] == "ok" else obs[n])
     for n, sig, detail in viol:
         print(f"violation at call {n}: {sig}: {detail}")
+    if not viol and not c.get("self_contained", True):
+        print("not reproduced in a fresh process: the recorded failure depended on what the worker process had run before")
     return 1 if viol else 0
